@@ -967,11 +967,48 @@ def twin_guard_clauses(tree, relpath):
     return _GuardClauses().visit(tree)
 
 
+class _ExpandAug(ast.NodeTransformer):
+    """`x op= e` -> `x = x op e` for plain names and attributes (same meaning for the immutable counters / flags the library uses them on; lists are left alone)"""
+
+    def visit_AugAssign(self, node):
+        self.generic_visit(node)
+        if isinstance(node.target, (ast.Name, ast.Attribute)) and isinstance(node.op, (ast.Add, ast.Sub, ast.BitOr, ast.BitAnd, ast.Mult)) \
+                and not isinstance(node.value, (ast.List, ast.Tuple, ast.ListComp)):
+            import copy
+            load = copy.deepcopy(node.target)
+            for x in ast.walk(load):
+                if hasattr(x, "ctx"):
+                    x.ctx = ast.Load()
+            new = ast.Assign(targets=[node.target], value=ast.BinOp(left=load, op=node.op, right=node.value))
+            return ast.copy_location(new, node)
+        return node
+
+
+def twin_expand_augmented(tree, relpath):
+    return _ExpandAug().visit(tree)
+
+
+class _Yoda(ast.NodeTransformer):
+    """`x == C` -> `C == x` (also !=, is, is not) for constant C: operand order of a symmetric comparison"""
+
+    def visit_Compare(self, node):
+        self.generic_visit(node)
+        if len(node.ops) == 1 and isinstance(node.ops[0], (ast.Eq, ast.NotEq, ast.Is, ast.IsNot)) and isinstance(node.comparators[0], ast.Constant) \
+                and not isinstance(node.left, ast.Constant):
+            node.left, node.comparators = node.comparators[0], [node.left]
+        return node
+
+
+def twin_yoda(tree, relpath):
+    return _Yoda().visit(tree)
+
+
 def twin_extract_tests(tree, relpath):
     return _ExtractTests().visit(tree)
 
 
-TWINS = [("if-tests-extracted-into-explaining-variables", twin_extract_tests), ("no-else-after-return-raise-continue-break", twin_no_else_after_jump), ("trailing-if-turned-into-guard-clause", twin_guard_clauses), ("swap-branches-of-every-if-else", twin_swap_if_else), ("de-morgan-and-negated-comparisons-in-tests", twin_de_morgan),
+TWINS = [("if-tests-extracted-into-explaining-variables", twin_extract_tests), ("no-else-after-return-raise-continue-break", twin_no_else_after_jump), ("trailing-if-turned-into-guard-clause", twin_guard_clauses), ("augmented-assignments-expanded", twin_expand_augmented),
+         ("constant-first-in-symmetric-comparisons", twin_yoda), ("swap-branches-of-every-if-else", twin_swap_if_else), ("de-morgan-and-negated-comparisons-in-tests", twin_de_morgan),
          ("reformat-through-unparse", twin_reformat), ("noop-statements-everywhere", twin_noops), ("rename-all-function-locals", twin_rename_locals),
          ("invert-every-if-without-else", twin_invert_ifs), ("dict()-instead-of-{}", twin_dict_calls), ("log.debug-at-every-function-entry", twin_logging)]
 
